@@ -355,3 +355,45 @@ func NamedOf(t types.Type) *types.Named {
 		}
 	}
 }
+
+// DeepEffects lists the mutations of state reachable from root performed by fn or, through arguments that derive
+// from root, by its static callees (to the given depth). Dynamic callees are not followed.
+func DeepEffects(fn *ssa.Function, root ssa.Value, mutators map[string]bool, depth int) []Effect {
+	type key struct {
+		fn   *ssa.Function
+		root ssa.Value
+	}
+	seen := map[key]bool{}
+	var out []Effect
+	var walk func(fn *ssa.Function, root ssa.Value, d int)
+	walk = func(fn *ssa.Function, root ssa.Value, d int) {
+		if seen[key{fn, root}] || d > depth {
+			return
+		}
+		seen[key{fn, root}] = true
+		out = append(out, Effects(fn, root, mutators)...)
+		for _, cl := range Calls(fn, true) {
+			callee := cl.Common().StaticCallee()
+			if callee == nil || len(callee.Blocks) == 0 {
+				continue
+			}
+			args := cl.Common().Args
+			for i, a := range args {
+				if i >= len(callee.Params) {
+					break
+				}
+				derived := false
+				for _, ch := range Chains(a) {
+					if ch.Root == root {
+						derived = true
+					}
+				}
+				if derived {
+					walk(callee, callee.Params[i], d+1)
+				}
+			}
+		}
+	}
+	walk(fn, root, 0)
+	return out
+}
